@@ -15,9 +15,11 @@ import (
 	"verif/checks/c15"
 	"verif/checks/c16"
 	"verif/checks/c17"
+	"verif/checks/c18"
 )
 
 func init() {
+	register("C18", "exploration", c18.Run)
 	register("C15", "model_checking", c15.Run)
 	register("C10", "exploration", c10.Run)
 	register("C16", "exploration", c16.Run)
